@@ -76,7 +76,7 @@ Optimize(t) ==
        THEN last' = "ValueError" /\ UNCHANGED <<cfg, callerCfg, book, priv, npRng, stdRng, hist>>     \* refused, nothing changes
        ELSE /\ last' = "ok"
             /\ hist' = (IF Dev = "aliasrates" /\ Len(hist) > 0          \* a result already returned is rewritten by this run
-                        THEN [hist EXCEPT ![Len(hist)].result = <<"rewritten">>] ELSE hist)
+                        THEN [hist EXCEPT ![Len(hist)].result = <<hist[Len(hist)].result[1], 0 - 1, <<>>>>] ELSE hist)
                        \o <<[key |-> Key(t), result |-> Result(t)]>>
             /\ book' = book + 1
             /\ priv' = t
